@@ -43,6 +43,14 @@ pub enum Meta {
     LessInSort,
     LessEqDerived,
     Display,
+    /// `@display` reached while a container holding the object is rendered
+    DisplayInList,
+    DisplayInTuple,
+    DisplayInMap,
+    /// … through `print`
+    DisplayViaPrint,
+    /// … through the `debug` expression
+    DisplayViaDebug,
     Index,
     Call,
     Size,
@@ -59,6 +67,11 @@ pub const METAS: &[Meta] = &[
     Meta::LessInSort,
     Meta::LessEqDerived,
     Meta::Display,
+    Meta::DisplayInList,
+    Meta::DisplayInTuple,
+    Meta::DisplayInMap,
+    Meta::DisplayViaPrint,
+    Meta::DisplayViaDebug,
     Meta::Index,
     Meta::Call,
     Meta::Size,
@@ -291,6 +304,11 @@ pub fn render(spec: &Spec) -> Scenario {
                 Meta::LessInSort => ("@<", "other", vec!["w = [mo, mo].sort()"]),
                 Meta::LessEqDerived => ("@<", "other", vec!["w = mo >= 1"]),
                 Meta::Display => ("@display", "", vec!["w = 'a{mo}b'"]),
+                Meta::DisplayInList => ("@display", "", vec!["w = 'a{[mo]}b'"]),
+                Meta::DisplayInTuple => ("@display", "", vec!["w = 'a{(mo, 1)}b'"]),
+                Meta::DisplayInMap => ("@display", "", vec!["m2 = {k: mo}", "w = 'a{m2}b'"]),
+                Meta::DisplayViaPrint => ("@display", "", vec!["print [mo]"]),
+                Meta::DisplayViaDebug => ("@display", "", vec!["debug [mo]"]),
                 Meta::Index => ("@index", "i", vec!["w = mo[0]"]),
                 Meta::Call => ("@call", "", vec!["w = mo()"]),
                 Meta::Size => ("@size", "", vec!["w = size mo"]),
@@ -767,6 +785,7 @@ pub fn execute(sc: &Scenario, limited: bool, clock: &Rc<VClock>, scratch: &Scrat
 
     clock.record_entries.set(true);
     clock.keep_threshold.set(sc.limit_ns / 2);
+    clock.limit.set(if limited { sc.limit_ns } else { u64::MAX });
     let cap = if limited { sc.step_cap } else { sc.step_cap.max(MAX_STEP_CAP) };
     clock.reset(sc.profile.clone(), sc.granularity, cap);
 
@@ -907,6 +926,19 @@ pub fn check(sc: &Scenario, r: &RunResult, reference: Option<&RunResult>) -> Opt
     }
     if let Some((_, d)) = worst {
         return viol("deadline-overrun", d);
+    }
+    if r.hit_step_cap && r.entries.iter().any(|e| e.deadline_seen && !e.open) {
+        // an entry's timeout fired, and yet the run carried on until the step cap: the timeout
+        // was swallowed somewhere (possibly disguised as another error)
+        return viol(
+            "continued-after-timeout",
+            format!(
+                "{} entries observed their deadline but the run went on until the step cap of {}; caught values: {:?}",
+                r.entries.iter().filter(|e| e.deadline_seen && !e.open).count(),
+                sc.step_cap,
+                r.log.caught.iter().map(|c| c.1.clone()).take(3).collect::<Vec<_>>()
+            ),
+        );
     }
     if r.hit_step_cap {
         // cannot happen for a correct implementation without tripping the per-entry clause
